@@ -536,6 +536,10 @@ impl Impl {
                 // call site HealthChecker::record_check_result: find_backend(address) then record
                 let (Some(c), Some(a), Some(thr)) = (n(1), n(2), n(4)) else { return bad };
                 let ok = match w[3] { "0" => false, "1" => true, _ => return bad };
+                if self.list(c).iter().filter(|b| addr_no(&b.borrow().address) == a).count() > 1 {
+                    // every result for this address lands on the first backend (C12_health_by_address_shadowed)
+                    self.tags.push("hc:shared-address-first-only".into());
+                }
                 let Some(list) = self.map.backends.get_mut(&cl(c)) else { return ("absent".into(), Some(c)) };
                 let Some(b) = list.find_backend(&addr(a)) else { return ("absent".into(), Some(c)) };
                 let mut bb = b.borrow_mut();
